@@ -120,7 +120,31 @@ def make_survey(E, c, nsrc, nfreq):
                             data=d.view(symx.SymArray), noise_floor=nfq)
 
 
-def build(E, c, W, nsrc, nfreq, max_workers, file_dir):
+class _SymP:
+    """discretize's volume-average matrix applied to symbolic vectors (the
+    matrix itself is concrete: grids are concrete)."""
+
+    def __init__(self, P, transposed=False):
+        self.P = P.tocsr()
+        self.tr = transposed
+
+    @property
+    def T(self):
+        return _SymP(self.P.T, not self.tr)
+
+    def __mul__(self, v):
+        v = np.asarray(v, dtype=object)
+        P = self.P
+        out = np.empty(P.shape[0], dtype=object)
+        for i in range(P.shape[0]):
+            acc = Q(0)
+            for p_ in range(P.indptr[i], P.indptr[i+1]):
+                acc = acc + v[P.indices[p_]]*float(P.data[p_])
+            out[i] = acc
+        return out.view(symx.SymArray)
+
+
+def build(E, c, W, nsrc, nfreq, max_workers, file_dir, gridding='same'):
     real_pm = E._multiprocessing.process_map
     keep = []
     saved = simx.install(E, W, keep)
@@ -128,11 +152,27 @@ def build(E, c, W, nsrc, nfreq, max_workers, file_dir):
     sv13 = c13.install(E)
     grid = simx.make_grid(E)
     sv = make_survey(E, c, nsrc, nfreq)
-    model, vals = simx.make_model(E, c, grid, ANISO, MAPPING)
+    mapping = MAPPING if gridding == 'same' else 'LgConductivity'
+    model, vals = simx.make_model(E, c, grid, ANISO, mapping)
     kw = dict(SIM_KW)
     if file_dir:
         kw['file_dir'] = file_dir
-    sim = E.simulations.Simulation(sv, model, gridding='same',
+    if gridding == 'dict':
+        # source-dependent computational grids of DIFFERENT size: the
+        # first source gets the smaller one
+        small = E.meshes.TensorMesh([np.array([2., 2., 2.]),
+                                     np.array([1., 2., 2.]),
+                                     np.array([1., 2., 1.])], (0., 0., 0.))
+        srcs, freqs = list(sv.sources), list(sv.frequencies)
+        kw['gridding_opts'] = {s_: {f_: (small if i == 0 else grid)
+                                    for f_ in freqs}
+                               for i, s_ in enumerate(srcs)}
+        import discretize
+        real_va = discretize.utils.volume_average
+        saved.append((E.maps.discretize.utils, 'volume_average', real_va))
+        E.maps.discretize.utils.volume_average = \
+            lambda og, ng, *a, **k: _SymP(real_va(og, ng, *a, **k))
+    sim = E.simulations.Simulation(sv, model, gridding=gridding,
                                    max_workers=max_workers,
                                    receiver_interpolation='linear', verb=0,
                                    tqdm_opts=False, **kw)
@@ -195,17 +235,20 @@ def differs(c, got, want):
 
 def case_mode(case):
     """case = (nsrc, nfreq, tqdm on/off, file mode on/off, study run)."""
-    nsrc, nfreq, use_tqdm, use_files, study = case
+    nsrc, nfreq, use_tqdm, use_files, study = case[:5]
+    gridding = case[5] if len(case) > 5 else 'same'
     E = shadow.load()
     c = set_ctx(Ctx(timeout_ms=60000))
     State.OBJECT_ALLOC = True
     warnings.filterwarnings('ignore')
     grp = (f"{nsrc} sources x {nfreq} frequencies, tqdm={use_tqdm}, "
-           f"files={use_files}, symbolic schedule of pool run #{study}")
+           f"files={use_files}, symbolic schedule of pool run #{study}" +
+           (", source-dependent grids of different size"
+            if gridding != 'same' else ""))
     W = simx.World()
     mp = E._multiprocessing
     tq_model = mp.tqdm if mp.tqdm is not None else cfmodel.TqdmModel
-    tmp = tempfile.mkdtemp(prefix='c11_')
+    tmp = tempfile.mkdtemp(prefix='c11.v1_')
     obs = []
     t0 = time.time()
     vshape = (2, 4, 4, 3)
@@ -213,7 +256,7 @@ def case_mode(case):
         # ---- reference: sequential, in memory, no progress bar ---------
         mp.tqdm = None
         cfmodel.SCHED[0] = None
-        X = build(E, c, W, nsrc, nfreq, 1, None)
+        X = build(E, c, W, nsrc, nfreq, 1, None, gridding)
         try:
             vec = sym_array('v', vshape)
             want = scenario(X['sim'], vec)
@@ -235,7 +278,8 @@ def case_mode(case):
             del cfmodel.LOG[:]
             fs = FS()
             fsaved = install_fs(E, fs) if use_files else []
-            X = build(E, c, W, nsrc, nfreq, mw, tmp if use_files else None)
+            X = build(E, c, W, nsrc, nfreq, mw, tmp if use_files else None,
+                      gridding)
             try:
                 got = scenario(X['sim'], sym_array('v', vshape))
             finally:
@@ -277,6 +321,7 @@ def case_mode(case):
                      if d else None),
                 cex=dict(kind='mode', what=d, nsrc=nsrc, nfreq=nfreq,
                          tqdm=use_tqdm, files=use_files, parallel=par,
+                         gridding=gridding,
                          order=[int(i) for i in (
                              (oshow[0] if study == 'all' else oshow)
                              if par and oshow else [])], study=study)
@@ -350,8 +395,18 @@ def replay(cex):
         model = emg3d.Model(grid, property_x=px.copy(), property_z=pz.copy(),
                             mapping=MAPPING)
         kw = dict(file_dir=file_dir) if file_dir else {}
+        gridding = cex.get('gridding', 'same')
+        if gridding == 'dict':
+            small = emg3d.TensorMesh([np.array([2., 2., 2.])*100,
+                                      np.array([1., 2., 2.])*100,
+                                      np.array([1., 2., 1.])*100], (0, 0, 0))
+            kw['gridding_opts'] = {
+                s_: {f_: (small if i == 0 else grid)
+                     for f_ in survey.frequencies}
+                for i, s_ in enumerate(survey.sources)}
         sim = emg3d.Simulation(
-            survey, model, gridding='same', max_workers=max_workers, verb=0,
+            survey, model, gridding=gridding, max_workers=max_workers,
+            verb=0,
             receiver_interpolation='linear', tqdm_opts=False,
             solver_opts=dict(tol=1e-8, tol_gradient=1e-5, plain=True,
                              maxit=100), **kw)
@@ -386,7 +441,7 @@ def replay(cex):
             _mp.tqdm = old
             _mp.solve = old_solve
         return out
-    tmp = tempfile.mkdtemp(prefix='c11r_')
+    tmp = tempfile.mkdtemp(prefix='c11r.v1_')
     try:
         want = run(1, None, False)
         # real pool with one worker per task; the completion order of the
@@ -559,11 +614,16 @@ def main(tier):
                                     'emg3d/_multiprocessing.py')}
     if tier == 'quick':
         shapes = [(2, 2)]
-        extra = [(3, 1, False, True, 0), (1, 3, True, False, 1)]
+        extra = [(3, 1, False, True, 0), (1, 3, True, False, 1),
+                 (2, 1, False, False, 2, 'dict'),
+                 (2, 1, True, True, 0, 'dict'),
+                 (2, 1, True, False, 1, 'dict')]
     else:
         shapes = [(3, 1), (1, 3), (2, 2)]
         extra = [(3, 1, tq, fl, 'all') for tq in (False, True)
                  for fl in (False, True)]
+        extra += [(2, 1, tq, fl, st, 'dict') for tq in (False, True)
+                  for fl in (False, True) for st in (0, 1, 2)]
     cases = [(ns, nf, tq, fl, st) for ns, nf in shapes
              for tq in (False, True) for fl in (False, True)
              for st in (0, 1, 2)] + extra
@@ -575,8 +635,10 @@ def main(tier):
     obs = pmap(_dispatch, jobs)
     run.add(obs)
     run.bounds = dict(
-        tasks_per_pool_run=sorted({ns*nf for ns, nf, *_ in cases}),
-        survey_shapes=sorted({(ns, nf) for ns, nf, *_ in cases}),
+        tasks_per_pool_run=sorted({x[0]*x[1] for x in cases}),
+        survey_shapes=sorted({(x[0], x[1]) for x in cases}),
+        gridding="'same' and 'dict' (source-dependent computational grids "
+        "of different size, model volume-averaged to them)",
         max_workers="symbolic integer 1..16", completion_orders="all n! of "
         "the pool run under study (forward compute / back-propagation / "
         "J v), the other pool runs complete in reverse submission order",
